@@ -17,6 +17,11 @@ Line protocol of C18 (all numbers decimal, times in milliseconds of the case's t
             | <t>:rs    (a new IPManager over the same storage takes over)
   rl <Rate> <Burst> <TTL> <U> <ev>…
        ev = <t>:a:<ip> | <t>:c
+            | <t>:lk:<ip> | <t>:cr:<ip>:<i> | <t>:tk:<ip>:<i>   (AllowIP cut into its critical sections: lookup, create, Take;
+              <i> = position among the calls of <ip> in flight; the harness runs lk/tk on a bucket that exists)
+  race2 <mode> <Rate> <Burst> <TTL> <callers> <rounds> <seed>
+       <callers> goroutines call AllowIP for one address that has no bucket (first contact, or just evicted by cleanup)
+       at the same moment; observation: excess <k> = the most by which a round exceeded the burst (refill over the round's span allowed for).
   bfd <ev>… | rld <ev>… | hsd <ev>…   the same with the shipped default configuration (components built with a
        nil config, as the server does); model configuration = the regenerated defaults, in milliseconds
   hs <MaxFailures> <TimeWindow> <BanDuration> <PermanentBanAt> <Rate> <Burst> <TTL> <U> <ev>…
@@ -71,6 +76,19 @@ def parseREv (ps : List String) : Option REv :=
   | ["c"] => some .cleanup
   | _ => none
 
+def parseXEv (ps : List String) : Option XEv :=
+  match ps with
+  | ["a", a] => a.toNat?.map .allow
+  | ["c"] => some .cleanup
+  | ["lk", a] => a.toNat?.map .lookup
+  | ["cr", a, i] => match a.toNat?, i.toNat? with
+    | some a, some i => some (.create a i)
+    | _, _ => none
+  | ["tk", a, i] => match a.toNat?, i.toNat? with
+    | some a, some i => some (.take a i)
+    | _, _ => none
+  | _ => none
+
 def parseKind : String → Option HKind
   | "anonOk" => some .anonOk | "anonFail" => some .anonFail | "unknown" => some .unknown
   | "noChallenge" => some .noChallenge | "badResp" => some .badResp | "good" => some .good
@@ -116,7 +134,8 @@ def parseR : String → Option (Option HResp)
 inductive Case
   | bf (cfg : BruteForceConfig) (es : List TEv)
   | ip (es : List (Nat × IEv))
-  | rl (cfg : RateLimitConfig) (U : Nat) (es : List (Nat × REv))
+  | rl (cfg : RateLimitConfig) (U : Nat) (es : List (Nat × XEv))
+  | race2 (cfg : RateLimitConfig) (evict : Bool) (callers : Nat)
   | hs (cfg : HCfg) (es : List (Nat × HEv))
   | race (cfg : BruteForceConfig)
 
@@ -132,7 +151,11 @@ def defaultRL : RateLimitConfig :=
 def parseCase (ts : List String) : Option Case :=
   match ts with
   | "bfd" :: evs => (evs.mapM (parseTimed parseEv)).map (.bf defaultBF)
-  | "rld" :: evs => (evs.mapM (parseTimed parseREv)).map (.rl defaultRL 1000)
+  | "rld" :: evs => (evs.mapM (parseTimed parseXEv)).map (.rl defaultRL 1000)
+  | ["race2", mode, r, b, ttl, k, _rounds, _seed] =>
+    match natList [r, b, ttl, k] with
+    | some [r, b, ttl, k] => some (.race2 ⟨r, b, ttl⟩ (mode.startsWith "evict") k)
+    | _ => none
   | "hsd" :: evs => (evs.mapM (parseTimed parseHEv)).map (.hs ⟨defaultBF, defaultRL, 1000⟩)
   | "bf" :: m :: w :: b :: p :: evs =>
     match natList [m, w, b, p], evs.mapM (parseTimed parseEv) with
@@ -144,7 +167,7 @@ def parseCase (ts : List String) : Option Case :=
     | _ => none
   | "ip" :: evs => (evs.mapM (parseTimed parseIEv)).map .ip
   | "rl" :: r :: b :: ttl :: u :: evs =>
-    match natList [r, b, ttl, u], evs.mapM (parseTimed parseREv) with
+    match natList [r, b, ttl, u], evs.mapM (parseTimed parseXEv) with
     | some [r, b, ttl, u], some es => some (.rl ⟨r, b, ttl⟩ u es)
     | _, _ => none
   | "hs" :: m :: w :: b :: p :: r :: bu :: ttl :: u :: evs =>
@@ -165,11 +188,27 @@ def raceTimeline (cfg : BruteForceConfig) : List TEv :=
 def raceObs (cfg : BruteForceConfig) (refused : Bool) : List (Option Bool) :=
   (run cfg (raceTimeline cfg) State.empty).dropLast ++ [some refused]
 
+/-- All callers of a racing round look the address up before any of them enters the create section
+(the least favourable placement); in the evict flavour the address had a bucket that the clean-up
+pass dropped just before. -/
+def race2Timeline (cfg : RateLimitConfig) (evict : Bool) (k : Nat) : List (Nat × XEv) :=
+  let t := if evict then cfg.TTL + 2 else 1
+  (if evict then [(1, XEv.allow 1), (t, .cleanup)] else []) ++
+  List.replicate k (t, .lookup 1) ++ (List.replicate k [(t, XEv.create 1 0), (t, .take 1 0)]).flatten
+
+/-- the time line's answers with `m` of the callers admitted -/
+def race2Obs (_cfg : RateLimitConfig) (evict : Bool) (k m : Nat) : List (Option Bool) :=
+  (if evict then [some true, none] else []) ++ List.replicate k none ++
+  ((List.range k).map (fun i => [none, some (decide (i < m))])).flatten
+
 def runModel (ts : List String) : String :=
   match parseCase ts with
   | some (.bf cfg es) => " ".intercalate ((run cfg es State.empty).map showB)
   | some (.ip es) => " ".intercalate ((ipmRun es IPM.empty).map showB)
-  | some (.rl cfg u es) => " ".intercalate ((rlRun cfg u es (fun _ => none)).map showB)
+  | some (.rl cfg u es) => " ".intercalate ((xRun cfg u es XState.empty).map showB)
+  | some (.race2 cfg ev k) =>
+    s!"excess {admitted (xAllowsOf 1 (race2Timeline cfg ev k) (xRun cfg 1000 (race2Timeline cfg ev k) XState.empty))
+        - (if ev then 1 else 0) - cfg.Burst}"
   | some (.hs cfg es) => " ".intercalate ((hRun cfg es HState.empty).map showR)
   | some (.race cfg) =>
     if (run cfg (raceTimeline cfg) State.empty).getLast? == some (some true) then "lost 0" else "lost any"
@@ -189,8 +228,15 @@ def runHolds (caseToks obsToks : List String) : String :=
     | none => "false"
   | some (.rl cfg u es) =>
     match obsToks.mapM parseB with
-    | some obs => boolStr (holdsRL cfg u es obs)
+    | some obs => boolStr (holdsRLX cfg u es obs)
     | none => "false"
+  | some (.race2 cfg ev k) =>
+    match obsToks with
+    | ["excess", x] =>
+      match x.toNat? with
+      | some x => boolStr (holdsRLX cfg 1000 (race2Timeline cfg ev k) (race2Obs cfg ev k (if x = 0 then min k cfg.Burst else cfg.Burst + x)))
+      | none => "false"
+    | _ => "false"
   | some (.hs cfg es) =>
     match obsToks.mapM parseR with
     | some obs => boolStr (holdsHS cfg es obs)
